@@ -79,11 +79,18 @@ def prune_cache(keep=2):
     ds = [d for d in glob.glob(os.path.join(root, "*")) if os.path.isdir(d) and os.path.basename(d) not in ("tokens", "locks")]
     ds.sort(key=lambda d: os.path.getmtime(d), reverse=True)
     kept = 0
+    now = time.time()
     for d in ds:
         if os.path.basename(d) == cur:
             continue
         kept += 1
-        if kept >= keep:
+        # never remove a directory another check may still be working in (checks of different
+        # repository states can run side by side): only states untouched for two hours
+        try:
+            recent = max([os.path.getmtime(d)] + [os.path.getmtime(os.path.join(d, x)) for x in os.listdir(d)])
+        except OSError:
+            recent = now
+        if kept >= keep and now - recent > 7200:
             shutil.rmtree(d, ignore_errors=True)
 
 
